@@ -1464,6 +1464,18 @@ class Context:
                 return VBool(self.uf('field.__class__', T.Obj, T.Obj)(v.t) == self.class_const(ci))
             self.class_const(ci)
             return VBool(self.isinst_fn(ci)(v.t))
+        if fn == 'outer':
+            # outer(e), inside the claim / given of in_closure: e evaluated in the state of the function that REGISTERED the closure
+            # (its events, its heap), not in the later state the closure runs in
+            stack_ = I.__dict__.get('_outer_states') or []
+            if not stack_:
+                raise Unsupported('outer() outside in_closure', node)
+            cur_ = I.st
+            I.st = stack_[-1]
+            try:
+                return I.ev(node.args[0], frame)
+            finally:
+                I.st = cur_
         if fn == 'in_closure':
             # in_closure(f, lambda: expr): expr holds for the events produced when the callable f (a closure registered by the
             # function under verification, e.g. handed to execDetached) is later invoked with no arguments
@@ -1477,6 +1489,7 @@ class Context:
                 self.qcount += 1
                 return VBool(z3.Const('closure-claim!%d' % self.qcount, T.B))
             saved = I.st
+            I.__dict__.setdefault('_outer_states', []).append(saved)
             tmp = saved.snapshot()
             tmp.trace = []
             # later state: mutable class attributes may have changed too
@@ -1545,11 +1558,17 @@ class Context:
                             I.assume(I.truthy(I.ev(g_.body, cframe)))
                         finally:
                             I.pure -= 1
+                total_ = any(kw_.arg == 'total' and isinstance(kw_.value, ast.Constant) and kw_.value.value for kw_ in node.keywords)
                 try:
                     I.call(f, cargs, {}, node, frame)
-                except PyExc:
-                    # the claim is about the closure completing normally (a callee that raises is reported to its caller)
+                except PyExc as pe_:
+                    # the claim is about the closure completing normally (a callee that raises is reported to its caller) ...
                     I.pure = pure0
+                    if total_ and not pe_.exc.cls.startswith('opaque:'):
+                        # ... unless total=True: under the given facts the closure must not raise anything of its own (an exception that
+                        # comes out of an opaque callee is still the callee's business)
+                        hyps_ = tmp.pc[len(saved.pc):]
+                        return VBool(z3.Not(z3.And(*hyps_)) if hyps_ else z3.BoolVal(False))
                     return VBool(True)
                 I.pure = pure0
                 saved.counter = max(saved.counter, tmp.counter)
@@ -1560,6 +1579,7 @@ class Context:
             finally:
                 I.pure = pure0
                 I.st = saved
+                I._outer_states.pop()
         if fn == 'bound_method':
             o = I.unwrap(I.ev(node.args[0], frame))
             return I.getattr(o, self.const_str(I, I.ev(node.args[1], frame)), node, frame, for_call=True)
